@@ -3,17 +3,20 @@
 Specifications: spec/proc/Listener.tla (connection counters and the active gauge move with the registry under its
 lock; ConnStatsConserved, GaugeNonNegative; the pinned variant without the Stop accounting must fail) and
 spec/redis/ReqStats.tla (downstream total at dispatch, completion hook; one upstream total and one more hook per
-send incl. resends; per-command counters; the slots refresher's own requests; service stop: sessions gone, quit latch
-closed, backend clients stopped and drained - with the sends that still happen while the latch is closed: redirection
-replies for requests in flight and the refresher that took a pending trigger; Conserved at quiescence, NeverAhead always;
-the variant that registers the completion hook after the quit check must fail), both checked exhaustively;
+send incl. resends; per-command counters; the slots refresher's own requests; service stop: the quit latch is closed
+first, every backend client is told to quit at once and drains what it holds, then sessions, refresher and clients are
+waited for - with what goroutines already on their way still do while the latch is closed: the refresher that took a
+pending trigger, a backend reader with a redirection or a reply in hand, a session reader with a decoded request;
+Conserved at quiescence, NeverAhead always, the stop always gets through; the variant that registers the completion hook
+after the quit check must fail), both checked exhaustively;
 spec/redis/ReqStatsGen.tla (Gen_ReqStats_{any,fwd,mix}.cfg) emits the behaviours that are replayed.
 Code: the counters are read through the public stats package after histories that end in quiescence:
  - listener connection histories from the Listener model (accepts, closes, limit rejections, drain, stop with open
    connections) on a real listener (harness c09, sub-command c09-lstats);
  - ReqStats behaviours (local/forwarded requests, redirections, backend failures, refresh rounds, stop with requests
-   and refresh rounds outstanding, replies/redirections/refresher sends in the quit window) forced on a real Redis
-   processor against gated cluster nodes (harness c20-reqstats; gates client.Stop and upstream.loopRefreshSlots.picked);
+   and refresh rounds outstanding, drains, and the sends / replies of goroutines held over the close of the quit latch)
+   forced on a real Redis processor against gated cluster nodes (harness c20-reqstats; gates
+   upstream.loopRefreshSlots.picked, client.loopRead.paired, session.loopRead.decoded);
    mandatory strata every run; the nine ghost counters of the module are compared as well (drift is a note);
  - Redis pipelines with and without backend faults, redirections, connection-limit rejections, unsupported and
    invalid requests, ending normally or with the service stopped while connections are open;
@@ -55,10 +58,14 @@ def equations(stats, label, stopped):
     return bad
 
 
-# strata of ReqStats behaviours; the mandatory ones are replayed in every run
-MANDATORY = ("refresh-after-quit", "redirect-after-quit", "redirect-after-quit/second-hop", "both-after-quit",
-             "reply-after-quit/ok", "reply-after-quit/fail", "drained-at-stop", "refresh-outstanding-at-quit",
-             "redirect-while-serving", "refresh-failed", "stop-right-after-start")
+# strata of ReqStats behaviours; the mandatory ones are replayed in every run (each names a mechanism of the module whose
+# action TLC reaches in the exhaustive run: check_vacuity on MC_ReqStats*.cfg)
+MANDATORY = ("refresh-after-quit", "stop-right-after-start", "redirect-after-quit", "redirect-after-quit/second-hop",
+             "dispatch-after-quit", "local-dispatch-after-quit", "several-sends-after-quit",
+             "reply-in-hand-at-quit/ok", "reply-in-hand-at-quit/fail", "drained-at-quit", "refresh-drained-at-quit",
+             "refresh-reply-in-hand-at-quit", "redirect-while-serving", "refresh-failed")
+
+AFTER_QUIT_SENDS = (("ResendAfterQuit", "redirect"), ("RefreshSendAfterQuit", "refresh"), ("DispatchForwardAfterQuit", "dispatch"))
 
 
 def strata_of(beh):
@@ -74,17 +81,23 @@ def strata_of(beh):
         for s in steps:
             if s["a"] == "ResendAfterQuit" and any(t["a"] == "Resend" and t["r"] == s["r"] for t in steps):
                 out.add("redirect-after-quit/second-hop")
-    if "RefreshSendAfterQuit" in acts and "ResendAfterQuit" in acts:
-        out.add("both-after-quit")
+    if "DispatchForwardAfterQuit" in acts:
+        out.add("dispatch-after-quit")
+    if "DispatchLocalAfterQuit" in acts:
+        out.add("local-dispatch-after-quit")
+    if sum(1 for a, _ in AFTER_QUIT_SENDS if a in acts) >= 2:
+        out.add("several-sends-after-quit")
     for s in steps:
         if s["a"] == "CompleteAfterQuit":
-            out.add("reply-after-quit/ok" if s["ok"] else "reply-after-quit/fail")
+            out.add("reply-in-hand-at-quit/ok" if s["ok"] else "reply-in-hand-at-quit/fail")
         if s["a"] == "RefreshDone" and not s["ok"]:
             out.add("refresh-failed")
     if "Drain" in acts:
-        out.add("drained-at-stop")
-    if "RefreshDoneAfterQuit" in acts or "RefreshDrain" in acts:
-        out.add("refresh-outstanding-at-quit")
+        out.add("drained-at-quit")
+    if "RefreshDrain" in acts:
+        out.add("refresh-drained-at-quit")
+    if "RefreshDoneAfterQuit" in acts:
+        out.add("refresh-reply-in-hand-at-quit")
     if "Resend" in acts:
         out.add("redirect-while-serving")
     if "DispatchLocal" in acts:
@@ -94,7 +107,7 @@ def strata_of(beh):
 
 def window_of(beh):
     acts = set(s["a"] for s in beh["steps"])
-    w = [n for a, n in (("ResendAfterQuit", "redirect"), ("RefreshSendAfterQuit", "refresh")) if a in acts]
+    w = [n for a, n in AFTER_QUIT_SENDS if a in acts]
     return ("+".join(w) + "-after-quit") if w else "no-send-after-quit"
 
 
@@ -132,7 +145,7 @@ def reqstats_replay(ctx, pools):
             if id(b) not in ids:
                 ids.add(id(b))
                 chosen.append(b)
-    total = 500 if ctx.thorough else 36
+    total = 500 if ctx.thorough else 40
     for b in behs:
         if len(chosen) >= total:
             break
@@ -204,8 +217,8 @@ def run(ctx):
                       expect_violated=["ConnStatsConserved"], count=False),
             ex.submit(ctx.mc, "redis", "ReqStats", "MC_ReqStats.cfg" if ctx.thorough else "MC_ReqStats_quick.cfg", workers=4,
                       timeout=600, coverage=True),
-            # anti-vacuity: with the completion hook registered after the quit check a send in the quit window is never
-            # counted as failed (once through a redirection reply, once through the refresher alone)
+            # anti-vacuity: with the completion hook registered after the quit check a send after the close of the latch is
+            # never counted as failed (once through the requests alone, once through the refresher alone)
             ex.submit(ctx.mc, "redis", "ReqStats", "MC_ReqStats_latehook.cfg", workers=1, timeout=300,
                       expect_violated=["Conserved"], count=False),
             ex.submit(ctx.mc, "redis", "ReqStats", "MC_ReqStats_latehook_refresh.cfg", workers=1, timeout=300,
@@ -234,7 +247,15 @@ def run(ctx):
                                          runs=(30 if ctx.thorough else 4), conns=5, reqs=40)
         for res in results:
             st = res.get("statsAfterStop") or res.get("stats") or {}
+            # a snapshot taken while the service runs is only quiescent for the upstream when no slots refresh round is in
+            # progress: the refresher's own "cluster nodes" request is counted in upstream.rq_total while it is in flight
+            refreshing = (not res.get("statsAfterStop")) and st.get("upstream.slots_refresh.total", 0) != (
+                st.get("upstream.slots_refresh.success_total", 0) + st.get("upstream.slots_refresh.failure_total", 0))
             for sig, text in equations(st, label, bool(res.get("statsAfterStop"))):
+                if refreshing and sig.startswith("stats/upstream-rq-total-vs-outcomes"):
+                    ctx.notes.append("%s run %s: snapshot taken during a slots refresh round, upstream request equation not judged (%s)" % (
+                        label, res.get("run"), text))
+                    continue
                 ctx.violation(sig, text, {"run": {k: v for k, v in res.items() if k not in ("stats",)}, "stats": st})
     # tcp
     tfile = os.path.join(ctx.work, "tcp.ndjson")
